@@ -98,7 +98,9 @@ def processContainerCase (hdr : List String) (body : Array String) (st : Stats) 
   let mut st := { st with cases := st.cases + 1 }
   st := st.bump s!"container_kind_{kind}"
   if kvOf hdr "addr_order_differs_from_id_order" == "1" then st := st.bump "cases_with_address_order_ne_id_order"
-  let mut keys : Array Key := #[]
+  let mut keys : Array Key := #[]     -- ids as reported by getId(): input of the *model* (it replays what the code compares)
+  let mut skeys : Array Key := #[]    -- ids := creation index known to the harness: input of the address-free *specification*
+  let mut idPairs : List (Nat × Nat) := []   -- (creation index, reported id) of every non-null object seen
   let mut ops : List (Bool × Nat) := []
   let mut uops : List (UOp Nat Nat) := []
   let mut uobs : List String := []
@@ -108,15 +110,22 @@ def processContainerCase (hdr : List String) (body : Array String) (st : Stats) 
     match toks with
     | "k" :: _ :: "np" :: rest =>
       match natsOf rest with
-      | [nl, i, a, p] => keys := keys.push (.np ⟨mkPtr nl i a, p⟩)
+      | [nl, i, a, c, p] =>
+        keys := keys.push (.np ⟨mkPtr nl i a, p⟩); skeys := skeys.push (.np ⟨mkPtr nl c a, p⟩)
+        if nl == 0 then idPairs := (c, i) :: idPairs
       | _ => pure ()
     | "k" :: _ :: "ptr" :: rest =>
       match natsOf rest with
-      | [nl, i, a] => keys := keys.push (.ptr (mkPtr nl i a))
+      | [nl, i, a, c] =>
+        keys := keys.push (.ptr (mkPtr nl i a)); skeys := skeys.push (.ptr (mkPtr nl c a))
+        if nl == 0 then idPairs := (c, i) :: idPairs
       | _ => pure ()
     | "k" :: _ :: "rc" :: rest =>
       match natsOf rest with
-      | [n1, i1, a1, n2, i2, a2, t, r, h] => keys := keys.push (.rc ⟨mkPtr n1 i1 a1, mkPtr n2 i2 a2, t, r, h⟩)
+      | [n1, i1, a1, c1, n2, i2, a2, c2, t, r, h] =>
+        keys := keys.push (.rc ⟨mkPtr n1 i1 a1, mkPtr n2 i2 a2, t, r, h⟩); skeys := skeys.push (.rc ⟨mkPtr n1 c1 a1, mkPtr n2 c2 a2, t, r, h⟩)
+        if n1 == 0 then idPairs := (c1, i1) :: idPairs
+        if n2 == 0 then idPairs := (c2, i2) :: idPairs
       | _ => pure ()
     | ["o", "i", x] => ops := ops ++ [(true, x.toNat!)]
     | ["o", "e", x] => ops := ops ++ [(false, x.toNat!)]
@@ -130,7 +139,7 @@ def processContainerCase (hdr : List String) (body : Array String) (st : Stats) 
         if model != impl then
           IO.println s!"DIFF case={id} what=iteration kind={kind} model={model} impl={impl}"
           st := { st with diffs := st.diffs + 1 }
-        let spec := specIter keys ops
+        let spec := specIter skeys ops
         if spec != impl then
           IO.println s!"PROPFAIL case={id} what=container:{kind}:iteration-not-id-sorted spec={spec} impl={impl}"
           st := { st with propfails := st.propfails + 1 }
@@ -145,7 +154,7 @@ def processContainerCase (hdr : List String) (body : Array String) (st : Stats) 
             IO.println s!"DIFF case={id} what=comparator kind={kind} a={a} b={b} model={repr m} impl={r}"
             st := { st with diffs := st.diffs + 1 }
           -- property on the implementation: the result is the comparison of the address-free keys
-          if (r == 1) != lexLt ka.skey kb.skey then
+          if (r == 1) != lexLt (skeys.getD a (.ptr none)).skey (skeys.getD b (.ptr none)).skey then
             IO.println s!"PROPFAIL case={id} what=container:{kind}:comparator-not-by-id a={a} b={b} impl={r}"
             st := { st with propfails := st.propfails + 1 }
         | _ => pure ()
@@ -156,8 +165,8 @@ def processContainerCase (hdr : List String) (body : Array String) (st : Stats) 
         st := st.bump "sorts"
         let model := (fromList (ltOf (cmpFor kind false)) (sin.map fun i => keys.getD i (.ptr none))).map (idxOf keys)
         -- keys of the table are pairwise distinct, but several null-node ports are equivalent: compare modulo stable key
-        let sk := fun (l : List Nat) => l.map fun i => (keys.getD i (.ptr none)).skey
-        if !(sortedBySkey keys impl) || impl.length != sin.length || !(impl.all fun i => sin.contains i) then
+        let sk := fun (l : List Nat) => l.map fun i => (skeys.getD i (.ptr none)).skey
+        if !(sortedBySkey skeys impl) || impl.length != sin.length || !(impl.all fun i => sin.contains i) then
           IO.println s!"PROPFAIL case={id} what=container:{kind}:sort-not-id-sorted in={sin} out={impl}"
           st := { st with propfails := st.propfails + 1 }
         let dedup := fun (l : List (List Nat)) => l.foldl (fun acc x => if acc.contains x then acc else acc ++ [x]) []
@@ -176,6 +185,13 @@ def processContainerCase (hdr : List String) (body : Array String) (st : Stats) 
         | _ => pure ()
       else pure ()
     | _ => pure ()
+  -- the ids the comparators rely on: unique per object and increasing in creation order (the harness knows the creation order)
+  let badId := idPairs.any fun (c1, i1) => idPairs.any fun (c2, i2) => (c1 < c2 && !(i1 < i2)) || (c1 == c2 && i1 != i2)
+  if badId then
+    let shown := (idPairs.reverse.take 12).map fun (c, i) => s!"{c}:{i}"
+    IO.println s!"PROPFAIL case={id} what=container:{kind}:ids-not-unique-increasing-in-creation-order creation_index:reported_id={shown}"
+    st := { st with propfails := st.propfails + 1 }
+  st := st.bump "objects_id_checked" idPairs.length
   if kind == "umap" then
     st := { st with ops := st.ops + uops.length }
     st := st.bump "unstable_map_ops" uops.length
@@ -204,6 +220,9 @@ def processDesignCase (hdr : List String) (body : Array String) (st : Stats) : I
   let mut ref : Option (String × String) := none
   let mut unequal : List String := []
   let mut mismatches : List (List String × String × String) := []
+  let mut permProblems : List String := []
+  let mut permSeen := 0
+  let mut shuffleVariants := 0
   let mut lines := body.toList
   while !lines.isEmpty do
     let line := lines.head!
@@ -214,6 +233,7 @@ def processDesignCase (hdr : List String) (body : Array String) (st : Stats) : I
       st := { st with ops := st.ops + 1 }
       let kind := kvOf toks "kind"
       st := st.bump s!"variants_{kind}"
+      if kind == "shuffle" then shuffleVariants := shuffleVariants + 1
       let dg := kvOf toks "digest"; let tr := kvOf toks "trace"
       if name == "L0/b0" then ref := some (dg, tr)
       else
@@ -223,6 +243,16 @@ def processDesignCase (hdr : List String) (body : Array String) (st : Stats) : I
           if kind == "full" && (dg != rd || tr != rt) then unequal := unequal ++ [name]
           if kind == "shuffle" && tr != rt then unequal := unequal ++ [name]
         | none => unequal := unequal ++ [name]
+    | "perm" :: name :: _ =>
+      permSeen := permSeen + 1
+      let mode := kvOf toks "mode"; let n := (kvOf toks "n").toNat?.getD 0; let moved := (kvOf toks "moved").toNat?.getD 0; let tail := (kvOf toks "tail").toNat?.getD 0
+      st := st.bump s!"permutation_{mode}"
+      if moved > 0 then st := st.bump "permutations_non_identity"
+      -- the permutation is observed, not assumed: it must be a permutation of the same nodes and must not be the identity
+      if mode == "" || kvOf toks "same_set" != "1" then permProblems := permProblems ++ [s!"{name}:not-a-permutation-or-missing"]
+      else if n > 1 && moved == 0 then permProblems := permProblems ++ [s!"{name}:{mode}:identity(n={n})"]
+      else if mode == "library-shuffleNodes" && n >= 16 && (2 * moved < n || tail == 0) then
+        permProblems := permProblems ++ [s!"{name}:{mode}:partial(n={n},moved={moved},moved_in_last_quarter={tail})"]
     | "layout" :: _ :: _ =>
       st := st.bump s!"layout_{kvOf toks "name"}"
       if kvOf toks "exit" != "0" then st := st.bump "child_process_failures"
@@ -250,6 +280,11 @@ def processDesignCase (hdr : List String) (body : Array String) (st : Stats) : I
     if !(mismatches.all fun (t, _, _) => kvOf t "kind" == "crash") || mismatches.isEmpty then
       IO.println s!"DIFF case={id} what=harness-inconsistent unequal_digests={unequal} mismatch_lines={mismatches.length}"
       st := { st with diffs := st.diffs + 1 }
+  if permSeen != shuffleVariants then permProblems := permProblems ++ [s!"perm-lines={permSeen} shuffle-variants={shuffleVariants}"]
+  if !permProblems.isEmpty then
+    -- the "for all permutations of the node list" part of the property would pass vacuously
+    IO.println s!"DIFF case={id} what=node-permutation-not-effective problems={permProblems}"
+    st := { st with diffs := st.diffs + 1 }
   if ref.isNone then
     IO.println s!"DIFF case={id} what=no-reference-variant"
     st := { st with diffs := st.diffs + 1 }
